@@ -48,6 +48,7 @@ typedef struct msg_rec {
 	int      dst_running;         /* harness' static knowledge at send time */
 	int      nested_op;           /* op to perform inside the callback (-1 none) */
 	uint64_t stall_ns;
+	int      race;                /* sent while the pool is shutting down: may be accepted and never served; everything else still holds */
 	int      q_known;             /* the packet's position in its queue's byte stream is known (queue-corruption runs) */
 	int      q_idx;
 	uint64_t q_off;
